@@ -143,6 +143,12 @@ func (in *Interp) static(act *activation, b *ssa.BasicBlock, site token.Pos, fn 
 	if ret == nil {
 		ret = &Val{}
 	}
+	if tag, ok := in.TagFns[fn]; ok {
+		rc := *ret
+		rc.fpOK = false
+		rc.From = sortedUnion(rc.From, []string{tag + ":" + in.PathKey(site)})
+		ret = &rc
+	}
 	return ret
 }
 
@@ -585,7 +591,7 @@ func (in *Interp) builtin(act *activation, b *ssa.BasicBlock, instr ssa.CallInst
 		if a == nil {
 			return nil
 		}
-		r := &Val{Deps: a.Deps}
+		r := &Val{Deps: a.Deps, Aux: a}
 		if a.K != nil && a.K.Kind() == constant.String {
 			r.K = constant.MakeInt64(int64(len(constant.StringVal(a.K))))
 		}
@@ -621,6 +627,7 @@ func (in *Interp) builtin(act *activation, b *ssa.BasicBlock, instr ssa.CallInst
 		var c *Cell
 		if s != nil && s.Cell != nil && baseSel(s.CSel) == "" {
 			c = s.Cell.find() // weak in-place update: the result may share the first operand's backing array
+			c.LenVal = nil    // …whose length is no longer the one it was made with
 		} else {
 			c = in.newCell(act, v, "append", instr.Pos())
 		}
@@ -767,6 +774,11 @@ func stripFrom(v *Val, depth int) *Val {
 	c := *v
 	c.fpOK = false
 	c.From = nil
+	for _, f := range v.From {
+		if !strings.HasPrefix(f, "c:") {
+			c.From = append(c.From, f) // result tags (not local-cell markers) survive the return
+		}
+	}
 	if len(v.Kids) > 0 {
 		c.Kids = make(map[string]*Val, len(v.Kids))
 		for k, kid := range v.Kids {
@@ -774,4 +786,14 @@ func stripFrom(v *Val, depth int) *Val {
 		}
 	}
 	return &c
+}
+
+// PathKey: the static call path from the entry to a call site, as used in result tags.
+func (in *Interp) PathKey(site token.Pos) string {
+	var sb strings.Builder
+	for _, p := range in.pathStack {
+		fmt.Fprintf(&sb, "%d/", p)
+	}
+	fmt.Fprintf(&sb, "%d", site)
+	return sb.String()
 }
